@@ -1,7 +1,41 @@
 package agreement
 
 // C01 - Consensus safety: no two honest nodes commit different blocks for a round.
-// (header completed below once the bounds are frozen)
+//
+// Engine E-AGR (common_eagr_*_test.go): N honest nodes, each the REAL player + rootRouter advanced
+// only through rootRouter.submitTop, inside a deterministic single-threaded shell that mirrors
+// Service.mainLoop/do, demux.next, pseudonode and persistState; real makeVote / vote, bundle and
+// proposal verification (memoized); private consensus version in which every account's sortition
+// weight equals its stake (1 microalgo) for every (round, period, step).
+//
+// Explored (each configuration exhaustively within its stated bound; canonical state = every
+// node's encode() router+player bytes + ledger digests + disk image + in-flight messages):
+//   sync-*  3 honest nodes, threshold 2 of 3. Default = the synchronous schedule (every message
+//           delivered in send order, then every node takes its timeout). ALL executions that
+//           depart from it by at most k deviations: message lost / held back past the next timeout
+//           (+ in "faults": delivered twice, reordered, crash-restart of a node from its last
+//           persisted state, timeout at a subset of the nodes only, fast-recovery timeout).
+//           Variants: 1 or 3 proposers, a node that never receives period-0 payloads, 2 rounds.
+//   byz-3of4  3 honest + 1 adversary account, threshold 3 of 4: additionally adversary votes
+//           (soft/cert/next, any value seen or bottom, to any single node, incl. equivocation pairs).
+//   async-1prop  full asynchronous reachability (any delivery order, any-time timeouts, <=1
+//           crash-restart), breadth-first, complete up to a fixed number of events.
+// Oracle: over all ensureActions ever emitted by honest nodes round -> block digest is a function;
+// no conflicting write into a node's mock ledger; no panic inside submitTop.
+//
+// Mutants (bin/mut, quick tier):
+//   DETECTED  player.issueNextVote: next-vote bottom although the staged value is committable
+//             (`if answer.Committable` -> `if false && answer.Committable`): fork found with 2 lost messages.
+//   DETECTED  player.handleMessageEvent: cert-vote on payloadAccepted, i.e. without a soft quorum.
+//   MISSED at the quick bound: handleThresholdEvent(softThreshold) without `p.Step <= cert` (cert vote after
+//             the next vote): the shortest fork needs 4 deviations of mixed kinds (analysed by hand with
+//             the replay tool); inside the thorough bound of sync-1prop-latepayload.
+//   not property-breaking (analysed, see report): voteTracker.count without EquivocatorsCount (only
+//             under-counts: liveness); issueSoftVote ignoring nextStatus.Proposal in period>0 (needs a
+//             Byzantine *proposer* with the lowest period-1 credential, not in the adversary alphabet).
+// Not covered: more than 3 honest nodes / 4 accounts, periods > 1 and steps > next (partition recovery,
+// see C05), Byzantine proposals, cancellation of stale verification requests, message re-encoding on
+// the wire (nodes exchange the decoded structs).
 
 import (
 	"fmt"
@@ -48,6 +82,12 @@ func TestVerif_C01(t *testing.T) {
 		id: "C01", level: "model_checking",
 		configs: eagrSafetyConfigs(ve.Pick(1, 2)),
 		oracle:  c01Oracle,
-		rule:    "under construction.",
+		rule: "Real player+rootRouter state machines of 3 honest nodes driven through rootRouter.submitTop by a deterministic shell; every transition checks that round->committed digest is a function over all honest ensureActions, that no mock ledger sees a conflicting write and that submitTop does not panic.",
+		assume: []string{
+			"node shell (network, verification, pseudonode, persistence glue) re-implements Service.do/demux/pseudonode faithfully; the real Service wiring is not executed here",
+			"sortition is made deterministic by a private consensus version with committee size = total stake (weight = stake = 1)",
+			"nodes exchange decoded message structs (wire codec not exercised); stale-verification cancellation is not modelled",
+			"any-time / lock-step timeouts: durations are abstracted (sound for safety)",
+		},
 	})
 }
